@@ -8,6 +8,7 @@ import (
 	"errors"
 	"io"
 	"strings"
+	"sync"
 	"testing"
 
 	"github.com/wrgl/wrgl/pkg/ref"
@@ -19,6 +20,8 @@ type C11Plan struct {
 	// Faults: store read errors; each is armed in turn for every query of FaultQ
 	Faults []*Fault `json:"faults,omitempty"`
 	FaultQ [][]int  `json:"fault_q,omitempty"` // [a,b] IsAncestorOf / [s] walk / [x,y,z..] with a leading -1: SeekCommonAncestor
+	// Shared k > 0: two goroutines insert commit k-1 into one queue at the same time
+	Shared int `json:"shared,omitempty"`
 }
 
 func init() {
@@ -43,6 +46,9 @@ func init() {
 						break
 					}
 				}
+			}
+			if r.Chance(0.03) {
+				p.Shared = 1 + r.Intn(n)
 			}
 			if r.Chance(0.3) {
 				for k := r.Range(1, 3); k > 0; k-- {
@@ -155,6 +161,119 @@ func execC11(t *testing.T, raw json.RawMessage, res *Result) {
 		if len(seen) != len(anc[s]) {
 			res.Violate("walk-wrong", "walk from c%d visited %d commits, it has %d ancestors", s, len(seen), len(anc[s]))
 			return
+		}
+	}
+	// a walk seeded with several commits (as a walk from all ref heads is; two refs may sit on one commit): the
+	// union of their ancestors, each exactly once. Every other one goes through Reset on a used queue.
+	var reused *ref.CommitsQueue
+	for ti, tp := range p.Tuples {
+		if ti >= 16 {
+			break
+		}
+		seeds := make([][]byte, 0, len(tp)+1)
+		union := map[int]bool{}
+		okT := true
+		for _, x := range tp {
+			if x < 0 || x >= n {
+				okT = false
+				break
+			}
+			seeds = append(seeds, sums[x])
+			for a := range anc[x] {
+				union[a] = true
+			}
+		}
+		if !okT || len(tp) == 0 {
+			continue
+		}
+		if ti%3 == 0 {
+			seeds = append(seeds, sums[tp[0]]) // the same head twice
+		}
+		var q *ref.CommitsQueue
+		var err error
+		if ti%2 == 1 && reused != nil {
+			q = reused
+			err = q.Reset(seeds)
+		} else {
+			q, err = ref.NewCommitsQueue(st, seeds)
+		}
+		if err != nil {
+			res.Violate("walk-error", "walk seeded with %v: %v", tp, err)
+			return
+		}
+		reused = q
+		seen := map[int]int{}
+		for steps := 0; ; steps++ {
+			sum, _, err := q.PopInsertParents()
+			if errors.Is(err, io.EOF) {
+				break
+			}
+			if err != nil {
+				res.Violate("walk-error", "walk seeded with %v: %v", tp, err)
+				return
+			}
+			seen[idx[string(sum)]]++
+			if steps > 4*n+8 {
+				res.Violate("walk-wrong", "walk seeded with %v does not terminate within %d pops", tp, steps)
+				return
+			}
+		}
+		for a := range union {
+			if seen[a] != 1 {
+				res.Violate("walk-wrong", "walk seeded with commits %v (a head may appear twice) visited ancestor c%d %d times (parents %v)", tp, a, seen[a], g.Parents)
+				return
+			}
+		}
+		if len(seen) != len(union) {
+			res.Violate("walk-wrong", "walk seeded with %v visited %d commits, the seeds have %d ancestors", tp, len(seen), len(union))
+			return
+		}
+		res.probe("multi_seed_walk", 1)
+	}
+	// one queue fed by two goroutines with the same commit (see c11_shared.go)
+	if p.Shared > 0 && p.Shared <= n {
+		x := p.Shared - 1
+		rv := newRendezvousStore(st, "com/"+string(sums[x]))
+		q, err := ref.NewCommitsQueue(rv, nil)
+		if err != nil {
+			res.Violate("walk-error", "NewCommitsQueue(): %v", err)
+			return
+		}
+		var wg sync.WaitGroup
+		errs := make([]error, 2)
+		for k := 0; k < 2; k++ {
+			wg.Add(1)
+			go func(k int) {
+				defer wg.Done()
+				errs[k] = q.Insert(sums[x])
+			}(k)
+		}
+		wg.Wait()
+		if errs[0] != nil || errs[1] != nil {
+			res.Violate("walk-error", "Insert(c%d) from two goroutines: %v / %v", x, errs[0], errs[1])
+			return
+		}
+		seen := map[int]int{}
+		for steps := 0; steps <= 4*n+8; steps++ {
+			sum, _, err := q.PopInsertParents()
+			if errors.Is(err, io.EOF) {
+				break
+			}
+			if err != nil {
+				res.Violate("walk-error", "walk of the shared queue: %v", err)
+				return
+			}
+			seen[idx[string(sum)]]++
+		}
+		for a := range anc[x] {
+			if seen[a] != 1 {
+				res.Violate("walk-wrong", "two goroutines inserted c%d into one queue at the same time (their store reads overlapped: %v); the walk visited ancestor c%d %d times", x, rv.Met, a, seen[a])
+				return
+			}
+		}
+		res.probe("queue_shared_by_two_goroutines", 1)
+		if rv.Met {
+			res.probe("shared_queue_reads_overlapped", 1)
 		}
 	}
 	// merge base
